@@ -12,12 +12,18 @@ Stage D: exhaustive member probing of the Python classes against the compiler-de
          Value classes behind a type tag (configuration values, fault payloads): every class x values shared between
          classes of one field shape x several orders in this one process, through every carrier message, against the
          C++ image for that class (payload size as documented per tag in the header, struct sizes from the compiler).
+         Entry points that are told the message version: every encoding the member probes unpack is also decoded with
+         unpack(buffer, offset, message_version = the C++ struct's MESSAGE_VERSION, from the compiler), framed with a header
+         carrying that version and decoded by FusionEngineDecoder, and written to a log file read by MixedLogReader
+         (sequentially and through its index); at the current C++ version every member's bytes must land as without it.
 """
 import copy
 import json
 import os
+import shutil
 import struct
 import sys
+import tempfile
 
 import numpy as np
 
@@ -333,6 +339,8 @@ class Probe:
         rep['buffer_probes'] = 0
         rep['buffer_read_probes'] = 0
         rep['array_probes'] = 0
+        rep['version_probes'] = 0
+        self.vcases = []
 
         # ---- every call form of pack(): the object unpacked from the base encoding (every member distinct) serialised
         #      into caller-supplied buffers at several offsets
@@ -355,6 +363,9 @@ class Probe:
                     u['name'] != self.only.get('unit') and u['leaf']['path'] != self.only.get('member'):
                 continue
             self.probe_unit(s, subj, u, fixed, tailB, objB, snapB, packB, consumedB, lengths, rep, code)
+
+        # ---- the entry points that are told the message version (the header's), at the current C++ version
+        self.version_forms(s, subj, base, snapB, rep)
 
         # ---- array members as a whole: equivalent spellings of one logical value must give the C++ element order
         if packB is not None:
@@ -444,6 +455,9 @@ class Probe:
                                % (err,), replay)
                 continue
             snap1 = snapshot(obj1)
+            self.vcases.append({'u': u, 'p': p, 'mode': mode, 'buf': buf, 'snap': snap1, 'consumed': consumed1, 'replay': replay,
+                                'moved': p != base_raw,
+                                'want': None if codec.read in ('ignored', 'consumed') else codec.expect(buf, off, w)})
             self.nrforms = getattr(self, 'nrforms', 0) + 1
             self.buffer_read_form(s, subj, buf, (4, 1, 24, 7, 20, size, 2 + ctx.rng.randrange(250))[self.nrforms % 7], self.nrforms,
                                   snap1, consumed1, rep, {'unit': u['name'], 'pattern': p.hex(), 'mode': mode, 'bytes': buf.hex(),
@@ -566,6 +580,168 @@ class Probe:
         self.lines.append('c02iso %d %d %s %s' % (code, u['li'], f1.hex(), f2.hex()))
         self.expect.append(('ok' if not outside else None, dict(replay, what='field isolation spec on pack() output')))
 
+
+    # -----------------------------------------------------------------------------------------------------------
+    def version_forms(self, s, subj, base, snapB, rep):
+        """Entry points that hand unpack() a message version. The C++ struct `s` IS the layout of version
+        S::MESSAGE_VERSION (printed by the compiler), so a decode that is told exactly that version must place the bytes of
+        every member in the mapped attribute: the value the member's kind denotes (same oracle as the plain read probe), and
+        otherwise the same object as unpack() without a version gives (which the member probes tie to the C++ table).
+        Entry points: unpack(buffer, offset, message_version) in three call forms; the message framed with a header that
+        carries the version, decoded by FusionEngineDecoder, by MixedLogReader reading a log file sequentially, and by
+        MixedLogReader.parse_entry_at_index(). Older versions (0 .. current-1) describe layouts the headers no longer
+        contain: they are decoded once and the attributes they withhold are listed in the coverage report, not judged."""
+        cases, self.vcases = self.vcases, []
+        V = s.get('message_version')
+        if subj.unpack_version is None or subj.cls is None or V is None or s['message_type'] is None:
+            return
+        ctx = self.ctx
+        key, size = s['key'], s['sizeof']
+        rep['cxx_message_version'] = V
+        pyV = getattr(subj.cls, 'MESSAGE_VERSION', None)
+        if pyV != V:
+            rep['notes'].append('MESSAGE_VERSION: C++ %r, Python %r' % (V, pyV))
+        # older versions: listed, not judged
+        older = {}
+        for v in range(V):
+            try:
+                o, _ = subj.unpack_version(base, 0, v, 1)
+                older[str(v)] = diff_paths(snapB, snapshot(o))[:12]
+            except Exception as e:
+                older[str(v)] = 'raised %r' % (e,)
+        if older:
+            rep['attributes_withheld_at_older_versions'] = older
+        if not cases:
+            return
+        from fusion_engine_client.messages import defs
+        from fusion_engine_client.parsers import FusionEngineDecoder
+        from fusion_engine_client.parsers.mixed_log_reader import MixedLogReader
+
+        def judge(entry, call, c, obj, consumed, err):
+            u = c['u']
+            codec, off, w, mm = u['codec'], u['off'], u['w'], u['mm']
+            replay = dict(c['replay'], direction='read', entry_point=entry, call=call, message_version=V)
+            ctx.case('%s|%s|v%d|%s|%s|%s' % (key, u['name'], V, entry, c['p'].hex(), c['mode']), nontrivial=c['moved'])
+            ctx.count('read:version-entry:' + entry)
+            rep['version_probes'] += 1
+            if err is not None or obj is None or isinstance(obj, (bytes, bytearray)):
+                self.violation(s, u['name'], 'rejects-valid-bytes',
+                               '%s at message version %d (the C++ MESSAGE_VERSION) did not decode an encoding that unpack() without a '
+                               'version accepts: %s' % (call, V, repr(err) if err is not None else 'no payload object returned'), replay)
+                return
+            if c['want'] is not None:
+                try:
+                    got = mm.getter(obj) if (mm is not None and mm.getter) else (
+                        codec.observe(obj) if isinstance(codec, nm.Tag) else get_path(obj, tokens(u['attr'])))
+                    ok = codec.same(got, c['want'])
+                    shown = ('a sequence of length %d' % len(got)) if (isinstance(codec, nm.Length) and hasattr(got, '__len__')) \
+                        else repr(got)[:160]
+                except Exception as e:
+                    ok, shown = False, 'unreadable: %r' % (e,)
+                if not ok:
+                    replay.update(expected_value=repr(c['want']), observed_value=shown)
+                    self.violation(s, u['name'], 'current-version-read',
+                                   'bytes %s at [%d,%d) (C++ member %s of the version-%d struct) denote %r under kind %s; %s, told '
+                                   'message version %d, gives attribute %s = %s'
+                                   % (c['p'].hex(), off, off + w, u['name'], V, c['want'], codec.describe(), call, V, u['attr'], shown),
+                                   replay)
+                    return
+            changed = diff_paths(c['snap'], snapshot(obj))
+            if changed:
+                name, owner = u['name'], None
+                for cand in self.units_of:
+                    if cand['attr'] and within(changed[0], [cand['attr']]):
+                        name, owner = cand['name'], cand
+                        break
+                where = ' (C++ member %s, bytes [%d,%d))' % (name, owner['off'], owner['off'] + owner['w']) if owner is not None else ''
+                self.violation(s, name, 'current-version-read',
+                               '%s, told message version %d (the C++ MESSAGE_VERSION): attribute(s) %s%s differ from what unpack() '
+                               'of the same bytes without a version yields' % (call, V, changed[:6], where),
+                               dict(replay, changed_attributes=changed[:12]) if (owner is None or owner is u) else
+                               # the attribute belongs to another member than the one being probed: the replay probes the owner
+                               dict(replay, changed_attributes=changed[:12], unit=name, pattern=None, mode=None,
+                                    python_attribute=owner['attr'], offset=owner['off'], width=owner['w'],
+                                    kind=owner['codec'].describe(), seen_while_probing=u['name'], probe_pattern=c['p'].hex()))
+            if consumed is not None and consumed != c['consumed']:
+                self.violation(s, '*', 'size', '%s at message version %d reports %r bytes consumed; %r without a version'
+                               % (call, V, consumed, c['consumed']), replay)
+
+        # ---- (1) unpack(buffer, offset, message_version): positional / keyword; at offset 0 and inside a larger buffer
+        for i, c in enumerate(cases):
+            form = i % 3
+            off = (0, (4, 1, 24, 7)[(i // 3) % 4], 0)[form]
+            buf = guard_bytes(off, i) + bytes(c['buf'])
+            call = 'unpack(%s)' % (('buffer, %d, %d', 'buffer, %d, message_version=%d',
+                                    'buffer=, offset=%d, message_version=%d')[form] % (off, V))
+            try:
+                obj, consumed = subj.unpack_version(buf, off, V, form)
+                err = None
+            except Exception as e:
+                obj, consumed, err = None, None, e
+            judge('unpack', call, c, obj, consumed, err)
+
+        # ---- (2) framed messages whose header carries the version: stream decoder and log file readers.
+        #      quick tier: per member the first two patterns that move the value (and the base pattern); thorough: all
+        if ctx.thorough or self.only:
+            framed_cases = list(cases)
+        else:
+            seen, framed_cases = {}, []
+            for c in cases:
+                k = (c['u']['name'], c['moved'])
+                seen[k] = seen.get(k, 0) + 1
+                if seen[k] <= (2 if c['moved'] else 1):
+                    framed_cases.append(c)
+        try:
+            mtype = defs.MessageType(s['message_type'])
+        except ValueError:
+            return
+        stream = bytearray()
+        spans = []
+        for i, c in enumerate(framed_cases):
+            h = defs.MessageHeader(mtype)
+            h.message_version = V
+            h.sequence_number = i
+            m = bytes(h.pack(payload=bytes(c['buf'])))
+            spans.append((len(stream), len(m)))
+            stream += m
+
+        def collect(entry, call, pairs, err_all=None):
+            got = {}
+            for hdr, payload in pairs:
+                if getattr(hdr, 'message_type', None) == mtype and getattr(hdr, 'message_version', None) == V:
+                    got.setdefault(hdr.sequence_number, payload)
+            for i, c in enumerate(framed_cases):
+                judge(entry, call, c, got.get(i), None, err_all)
+
+        try:
+            res, err = FusionEngineDecoder(max_payload_len_bytes=max(1 << 24, len(stream)), warn_on_error='none').on_data(bytes(stream)), None
+        except Exception as e:
+            res, err = [], e
+        collect('decoder', 'FusionEngineDecoder.on_data(header with message_version=%d + payload)' % V, [(r[0], r[1]) for r in res], err)
+
+        d = tempfile.mkdtemp(prefix='c02_log_')
+        try:
+            path = os.path.join(d, 'c02.p1log')
+            with open(path, 'wb') as f:
+                f.write(stream)
+            reader = None
+            try:
+                reader = MixedLogReader(path, save_index=False, ignore_index=True, num_threads=1)
+                res, err = [(e[0], e[1]) for e in reader], None
+            except Exception as e:
+                res, err = [], e
+            collect('log-reader', 'MixedLogReader(file of header with message_version=%d + payload)' % V, res, err)
+            index = getattr(reader, 'index', None) if reader is not None else None
+            if index is not None and hasattr(reader, 'parse_entry_at_index'):
+                res, err = [], None
+                try:
+                    for entry in index:             # FileIndexEntry (time, type, offset, message_index)
+                        res.append(tuple(reader.parse_entry_at_index(entry))[:2])
+                except Exception as e:
+                    err = e
+                collect('log-index', 'MixedLogReader.parse_entry_at_index(header with message_version=%d + payload)' % V, res, err)
+        finally:
+            shutil.rmtree(d, ignore_errors=True)
 
     # -----------------------------------------------------------------------------------------------------------
     def member_at(self, s, i):
@@ -1272,7 +1448,8 @@ def run(ctx, r, only=None):
     cov['members_excluded'] = [dict(e, struct=k) for k, v in pr.report.items() for e in v['excluded']]
     cov['notes_on_members'] = sorted(set(n for v in pr.report.values() for n in v['notes']))
     cov['per_struct'] = {k: {x: v[x] for x in ('python', 'sizeof', 'python_default_size', 'leaves', 'units', 'read_probes', 'write_probes',
-                                               'buffer_probes', 'buffer_read_probes', 'array_probes')
+                                               'buffer_probes', 'buffer_read_probes', 'array_probes', 'version_probes',
+                                               'cxx_message_version', 'attributes_withheld_at_older_versions')
                              if x in v} for k, v in pr.report.items()}
     cov['compilers'] = r['compilers']
     cov['generated_per_struct_lemmas'] = 4 * len(layout) + 1
@@ -1312,6 +1489,13 @@ def check(ctx):
                        'class (tag and length at the compiler offsets, sub-header struct, payload of the size the header documents for the '
                        'tag: struct sizeof from the compiler, fixed-width scalars) whatever was serialised before, calcsize() the same, and '
                        'the C++ image must decode to that class and value and pack back to itself. '
+                       'Entry points that are told the message version: the C++ struct is the layout of its MESSAGE_VERSION (read from '
+                       'the compiler), so every encoding the read probes unpack is also decoded with unpack(buffer, offset, '
+                       'message_version = that version) (positional / keyword, offset 0 and inside a larger buffer) and, framed with a '
+                       'header carrying that version, by FusionEngineDecoder, by MixedLogReader reading a log file and by '
+                       'MixedLogReader.parse_entry_at_index (quick: the base pattern and two value-moving patterns per member; thorough: '
+                       'all): the probed member must have the value its bytes denote and the object must equal the one unpack() without a '
+                       'version builds; what older versions withhold is listed per struct, not judged. '
                        'non-trivial = pattern differs from the base value; distinct = (struct, unit, direction, pattern)')
     ctx.assumptions += [
         'g++ (and clang++ in the thorough tier) on x86-64 stands for "the C++ compiler": the layout theorems are about the table it printed',
